@@ -14,6 +14,7 @@ TOKEN_DDOT = sys.intern("DDOT")
 TOKEN_DOT = sys.intern("DOT")
 TOKEN_DOT_INDEX = sys.intern("DINDEX")
 TOKEN_DOT_PROPERTY = sys.intern("DOT_PROPERTY")
+TOKEN_DDOT_PROPERTY = sys.intern("DDOT_PROPERTY")
 TOKEN_FILTER = sys.intern("FILTER")
 TOKEN_FAKE_ROOT = sys.intern("FAKE_ROOT")
 TOKEN_KEY = sys.intern("KEY")
